@@ -4,7 +4,8 @@
 (* (harness/props/c16.py) are judged against the Williams model and the Processor contract of   *)
 (* module Crc.  A batch is read from the JSON file named by the environment variable TRACE_FILE;*)
 (* each trace is validated in its own behaviour (tid chosen in Init).  The verdict is total:    *)
-(* every trace prints <<"ACC", tid, steps, own, matches>> or <<"REJ", tid, step, clause, ...>>. *)
+(* every trace prints <<"ACC", tid, steps, own, matches>> or <<"REJ", tid, step, clause>>       *)
+(* (followed by a line "<<778, tid, expected>>" with the values the specification expected).    *)
 (*                                                                                             *)
 (* All CRC values, polynomials and data words are bit vectors, MSB first (see Crc.tla).         *)
 (* trace = [kind |-> "sw" | "res" | "hw", dw |-> data width,                                    *)
@@ -51,7 +52,8 @@ TInit == /\ tid \in 1..Len(Traces)
 
 Reject(step, clause, info) ==
     /\ verdict' = clause
-    /\ PrintT(<<"REJ", tid, step, clause, info>>)
+    /\ PrintT(<<"REJ", tid, step, clause>>)
+    /\ PrintT(ToString(<<778, tid, info>>))      \* what the specification expected (one unwrapped line)
     /\ UNCHANGED <<tid, i, regs, residue, nown, nmatch, P, dw, reg, started, ws, rs>>
 Accept(n) ==
     /\ verdict' = "ACC"
